@@ -42,10 +42,11 @@ package tree
 //@ closure Init.reset
 //@   requires p != nil
 //@   ensures[C07,C12] position == 0 && tokenIndex == 0 && maxToken == mk(token, 0, 0, 0)
+//@   ensures[C07,C12] text == ""
 //@   ensures[C07,C12] soff(p.buffer) == 0 && len(p.buffer) == rlen(p.Buffer) + 1 && buffer == p.buffer
 //@   ensures[C07,C12,C13] forall(i, imp(0 <= i && i < rlen(p.Buffer), p.buffer[i] == runeAt(p.Buffer, i)))
 //@   ensures[C07,C12,C13] p.buffer[rlen(p.Buffer)] == 1114112
-//@   modifies var position, tokenIndex, maxToken, buffer
+//@   modifies var position, tokenIndex, maxToken, buffer, text
 //@   modifies $T.buffer at r where r == p
 //@   modifies Elems.Int at b where false
 
